@@ -121,39 +121,61 @@ def gen_nginx(rng):
 def gen_pypi(rng):
     s = ""
     if rng.random() < 0.15:
-        s += rng.choice(["0", "1", "2"]) + "!"
-    s += _dotted(rng, 1, 4, lead0=0.1)
+        s += rng.choice(["0", "1", "2", "00", "01"]) + "!"
+    s += ".".join(_num(rng, big=True, lead0=0.1) for _ in range(rng.randint(1, 4)))
+    if rng.random() < 0.25:
+        s += ".0" * rng.randint(1, 2)
     if rng.random() < 0.3:
-        s += rng.choice(["", ".", "-", "_"]) + rng.choice(["a", "b", "rc", "alpha", "beta", "c", "pre", "preview", "RC", "A"]) + \
-             rng.choice(["", ".", "-"]) + rng.choice(["", _num(rng)])
+        s += rng.choice(["", ".", "-", "_"]) + rng.choice(["a", "b", "rc", "alpha", "beta", "c", "pre", "preview", "RC", "A", "Alpha"]) + \
+             rng.choice(["", ".", "-", "_"]) + rng.choice(["", _num(rng, lead0=0.1)])
     if rng.random() < 0.2:
         if rng.random() < 0.3:
-            s += "-" + _num(rng)
+            s += "-" + _num(rng, lead0=0.1)
         else:
-            s += rng.choice(["", ".", "-", "_"]) + rng.choice(["post", "rev", "r"]) + rng.choice(["", ".", "-"]) + rng.choice(["", _num(rng)])
+            s += rng.choice(["", ".", "-", "_"]) + rng.choice(["post", "rev", "r", "POST", "Rev"]) + rng.choice(["", ".", "-", "_"]) + rng.choice(["", _num(rng, lead0=0.1)])
     if rng.random() < 0.2:
-        s += rng.choice(["", ".", "-", "_"]) + "dev" + rng.choice(["", ".", "-"]) + rng.choice(["", _num(rng)])
-    if rng.random() < 0.15:
-        s += "+" + rng.choice([".", "-", "_"]).join(rng.choice(["abc", "1", "01", "ubuntu", "5", "x"]) for _ in range(rng.randint(1, 3)))
+        s += rng.choice(["", ".", "-", "_"]) + rng.choice(["dev", "DEV"]) + rng.choice(["", ".", "-", "_"]) + rng.choice(["", _num(rng, lead0=0.1)])
+    if rng.random() < 0.2:
+        s += "+" + "".join(rng.choice(["abc", "1", "01", "ubuntu", "5", "x", "0", "00", "10", "9", "a", "A", "1a", "a1", "Z", "deb"]) + rng.choice([".", "-", "_"])
+                           for _ in range(rng.randint(1, 3)))[:-1]
+    if rng.random() < 0.05:
+        i = rng.randrange(len(s) + 1)
+        s = s[:i] + rng.choice([" ", "\t", "\x1c", "\x0b", "  "]) + s[i:]
     return s
 
 
 def respell_pypi(s, rng):
+    import re
     r = rng.random()
-    if r < 0.3:
-        head, plus, local = s.partition("+")
+    head, plus, local = s.partition("+")
+    if r < 0.25:
         # trailing zero release padding
-        import re
         m = re.match(r"^((?:\d+!)?\d+(?:\.\d+)*)(.*)$", head)
         if m:
             return m.group(1) + ".0" + m.group(2) + plus + local
-    if r < 0.5:
+    if r < 0.4:
         return s.replace("alpha", "a").replace("beta", "b").replace("pre", "rc").replace("c", "rc", 1) if "rc" not in s else s
-    if r < 0.7:
+    if r < 0.5:
         return s.upper()
-    if r < 0.85:
-        return "v" + s
-    return s.replace("-", ".").replace("_", ".")
+    if r < 0.6:
+        return rng.choice(["v", "V", "vV"]) + s
+    if r < 0.7:
+        return head.replace("-", ".").replace("_", ".") + plus + local
+    if r < 0.8:
+        # local: other separators, leading zeros on numeric parts, case
+        parts = re.split(r"[._-]", local) if local else []
+        parts = [("0" + p if p.isdigit() and rng.random() < 0.5 else (p.upper() if rng.random() < 0.3 else p)) for p in parts]
+        return head + plus + rng.choice([".", "-", "_"]).join(parts)
+    if r < 0.9:
+        # spellings of post / implicit numbers
+        t = re.sub(r"[._-]?(post|rev|r)[._-]?(\d+)", lambda m: "-" + m.group(2), head, count=1, flags=re.I)
+        if t == head:
+            t = re.sub(r"(a|b|rc|post|dev)$", lambda m: m.group(1) + "0", head, flags=re.I)
+        if t == head:
+            t = re.sub(r"(?<=\d)(a|b|rc|post|dev)0(?=$|[._-]?[a-z])", lambda m: m.group(1), head, flags=re.I)
+        return t + plus + local
+    i = rng.randrange(len(s) + 1)
+    return s[:i] + " " + s[i:]
 
 
 # ----------------------------------------------------------------------------- generic
@@ -167,29 +189,42 @@ def gen_generic(rng):
 
 def gen_deb(rng):
     s = ""
-    if rng.random() < 0.25:
-        s += rng.choice(["0", "1", "2", "10"]) + ":"
+    r = rng.random()
+    if r < 0.25:
+        s += rng.choice(["0", "1", "2", "10", "00", "01", "010"]) + ":"
+    elif r < 0.255:
+        # CPython refuses int() of more than 4300 digits: ValueError instead of InvalidVersion
+        s += rng.choice(["1", "0"]) * rng.choice([4299, 4300, 4301]) + rng.choice(["", "7"]) + ":"
     def upstream(allow_hyphen):
-        n = rng.randint(1, 4)
+        n = rng.randint(0, 4)
         out = _num(rng, lead0=0.15)
         for _ in range(n):
             sep = rng.choice([".", ".", ".", "+", "~", "", "-" if allow_hyphen else "."])
-            out += sep + rng.choice([_num(rng, lead0=0.15), _word(rng, "abpz"), "~", "~~", "+b1", "a1", "rc1", "~rc1", "ubuntu1", "dfsg"])
+            out += sep + rng.choice([_num(rng, lead0=0.15), _word(rng, "abpz"), "~", "~~", "+b1", "a1", "rc1", "~rc1", "ubuntu1", "dfsg", "0", "00", "A", "Z", "z"])
         return out
     has_rev = rng.random() < 0.5
     s += upstream(allow_hyphen=has_rev and rng.random() < 0.3)
     if has_rev:
-        s += "-" + rng.choice([_num(rng), "0", "1", "1ubuntu1", "0ubuntu0.16.04.1~", "1~bpo8+1", "01", "1.1", "a"])
+        s += "-" + rng.choice([_num(rng), "0", "0", "00", "", "1", "1ubuntu1", "0ubuntu0.16.04.1~", "1~bpo8+1", "01", "1.1", "a", "0-0", "~", "+"])
     return s
 
 
 def respell_deb(s, rng):
     r = rng.random()
-    if r < 0.25 and ":" not in s:
-        return "0:" + s
-    if r < 0.45 and "-" not in s:
-        return s + "-0"
-    if r < 0.75:
+    if r < 0.15 and ":" not in s:
+        return rng.choice(["0:", "00:"]) + s
+    if r < 0.2 and ":" in s:
+        return "0" + s
+    if r < 0.35 and "-" not in s:
+        return s + rng.choice(["-0", "-", "-00"])
+    if r < 0.4 and s[-1:].isalpha():
+        return s + "0"
+    if r < 0.45 and s.endswith("-0"):
+        return s[:-1]
+    if r < 0.5:
+        i = rng.randrange(len(s) + 1)
+        return rng.choice(["v", "V", " ", ""]) + s[:i] + rng.choice([" ", "\t", "\n", ""]) + s[i:]
+    if r < 0.8:
         # zero padding of a numeric run
         import re
         runs = list(re.finditer(r"\d+", s.split(":")[-1]))
@@ -207,9 +242,10 @@ def respell_deb(s, rng):
 def gen_rpm(rng):
     s = ""
     if rng.random() < 0.25:
-        s += rng.choice(["0", "1", "2"]) + ":"
+        s += rng.choice(["0", "1", "2", "0", "1", "2", "00", "01", "-1", "+1", "-0", "1_0", "10", "-2"]) + ":"
     def seg():
-        out = _num(rng, lead0=0.15)
+        out = rng.choice(["", "~", "^", "a", "v"]) if rng.random() < 0.08 else ""
+        out += _num(rng, lead0=0.15)
         for _ in range(rng.randint(0, 4)):
             out += rng.choice([".", ".", ".", "_", "+", "", "~", "^"]) + rng.choice([_num(rng, lead0=0.15), _word(rng, "abpzAB"), "rc1", "a1", "el7", "fc30", "git20200101"])
         return out
@@ -234,8 +270,8 @@ def respell_rpm(s, rng):
     if r < 0.75:
         return s.replace(".", "_", 1)
     if r < 0.9:
-        return s + rng.choice(["~", "^", ".", "~1", "^1"])
-    return s.replace(".", "..", 1)
+        return s + rng.choice(["~", "^", ".", "~1", "^1", "-", "-.", "_", "^~", "~^"])
+    return s.replace(".", rng.choice(["..", "", "_", "+."]), 1)
 
 
 # ----------------------------------------------------------------------------- alpm
@@ -313,6 +349,11 @@ def respell_ebuild(s, rng):
 def gen_maven(rng):
     quals = ["alpha", "beta", "milestone", "rc", "snapshot", "", "sp", "ga", "final", "cr", "a", "b", "m",
              "x", "foo", "release", "SNAPSHOT", "RC", "Final"]
+    if rng.random() < 0.15:
+        # small alphabet: separator runs, zeros, aliases, digit/letter transitions without separator
+        toks = [".", ".", "-", "-", "0", "0", "1", "2", "10", "a", "b", "m", "x", "rc", "ga", "final", "cr",
+                "sp", "alpha", "snapshot", "00", "A", "_"]
+        return "".join(rng.choice(toks) for _ in range(rng.randint(0, 7)))
     s = _num(rng)
     for _ in range(rng.randint(0, 4)):
         sep = rng.choice([".", ".", ".", "-", "-", ""])
@@ -328,11 +369,18 @@ def gen_maven(rng):
 def respell_maven(s, rng):
     r = rng.random()
     if r < 0.3:
-        return s + rng.choice([".0", "-0", ".0.0", "-ga", "-final", ".final", "-"])
-    if r < 0.5:
-        for a, b in (("alpha", "a"), ("beta", "b"), ("milestone", "m"), ("rc", "cr"), ("ga", "final")):
+        return s + rng.choice([".0", "-0", ".0.0", "-ga", "-final", ".final", "-", "-ga1", "-0.1", "-0.2", "-0-1",
+                               ".0.rc", ".x", "-ga-1", ".ga", "--", "-0-"])
+    if r < 0.4:
+        for a, b in (("alpha", "a"), ("beta", "b"), ("milestone", "m")):
             if a in s:
-                return s.replace(a, b + ("1" if a in ("alpha", "beta", "milestone") and not s.endswith(a) else ""), 1) if False else s.replace(a, a.upper(), 1)
+                i = s.index(a) + len(a)
+                if i < len(s) and s[i].isdigit():
+                    return s.replace(a, b, 1)
+    if r < 0.5:
+        for a, b in (("rc", "cr"), ("ga", "final"), ("final", "ga"), ("alpha", "ALPHA"), ("beta", "Beta")):
+            if a in s:
+                return s.replace(a, b, 1)
     if r < 0.7:
         return s.upper()
     if r < 0.85:
@@ -346,9 +394,9 @@ def gen_nuget(rng):
     n = rng.choice([1, 2, 3, 3, 3, 4, 4])
     s = ".".join(_num(rng, lead0=0.1) for _ in range(n))
     if rng.random() < 0.4:
-        s += "-" + ".".join(rng.choice(["alpha", "beta", "rc", "1", "2", "10", "Alpha", "a-b", "x"]) for _ in range(rng.randint(1, 3)))
+        s += "-" + ".".join(rng.choice(["alpha", "beta", "rc", "1", "2", "10", "Alpha", "a-b", "x", "0", "9", "1a", "rc1", "RC", "-", "a0", "A"]) for _ in range(rng.randint(1, 3)))
     if rng.random() < 0.2:
-        s += "+" + rng.choice(["build", "1", "sha.1"])
+        s += "+" + rng.choice(["build", "1", "sha.1", "Build", "01", "b-1"])
     return s
 
 
@@ -368,27 +416,56 @@ def respell_nuget(s, rng):
 # ----------------------------------------------------------------------------- gem
 
 def gen_gem(rng):
-    s = _num(rng, lead0=0.05)
-    for _ in range(rng.randint(0, 4)):
+    s = _num(rng, big=True, lead0=0.05)
+    for _ in range(rng.randint(0, 5)):
         r = rng.random()
-        if r < 0.7:
-            s += "." + _num(rng, lead0=0.05)
+        if r < 0.3:
+            s += ".0"
+        elif r < 0.65:
+            s += "." + _num(rng, big=True, lead0=0.05)
         elif r < 0.85:
-            s += "." + rng.choice(["a", "b", "rc", "pre", "beta", "alpha", "rc1", "b2", "x"])
+            s += "." + rng.choice(["a", "b", "rc", "pre", "beta", "alpha", "rc1", "b2", "x", "A", "Rc", "a0", "0a", "a01b", "Z"])
         else:
-            s += rng.choice(["-", ""]) + rng.choice(["a", "rc1", "pre", "beta2"])
+            s += rng.choice(["-", "", "--", "-0.", "."]) + rng.choice(["a", "rc1", "pre", "beta2", "0", "PRE", "a-b", "-"])
     return s
 
 
 def respell_gem(s, rng):
+    """equal-by-canonical-segments respellings: trailing zeros of the numeric head (before the
+    first letter) and of the tail, leading zeros of a number, `-` vs `.pre.`, `a1` vs `a.1`"""
     r = rng.random()
-    if r < 0.4:
+    if r < 0.2:
         return s + ".0"
-    if r < 0.6:
+    if r < 0.3:
         return s + ".0.0"
-    if r < 0.8:
+    if r < 0.45:
         return s.replace("-", ".pre.", 1)
-    return s.replace(".", ".0", 1)
+    if r < 0.65:
+        # zeros before the first letter
+        for i, c in enumerate(s):
+            if c.isalpha():
+                j = i
+                while j > 0 and s[j - 1].isdigit():
+                    j -= 1      # letter glued to digits: 1.2a → split point is before the digits? keep simple
+                if j == i and i > 0 and s[i - 1] in ".-":
+                    sep = s[i - 1]
+                    if sep == ".":
+                        return s[:i] + "0." * rng.randint(1, 2) + s[i:]
+                return s[:i] + ".0." + s[i:] if s[i - 1:i].isdigit() else s
+        return s + ".0"
+    if r < 0.75:
+        # drop a ".0" somewhere
+        i = s.find(".0.")
+        return s[:i] + s[i + 2:] if i >= 0 else (s[:-2] if s.endswith(".0") else s)
+    if r < 0.85:
+        # letter/digit boundary gets a dot
+        for i in range(1, len(s)):
+            if s[i - 1].isalpha() and s[i].isdigit() or s[i - 1].isdigit() and s[i].isalpha():
+                return s[:i] + "." + s[i:]
+        return s
+    if r < 0.93:
+        return s.replace(".", ".0", 1)
+    return s.swapcase()
 
 
 # ----------------------------------------------------------------------------- conan
